@@ -5,7 +5,7 @@
                                     ones; on failure destroy the new items created so far"
    and a table of the documented exception-safety strength of every Array / SegmentedArray operation. *)
 From Coq Require Import List Arith Lia Bool PeanoNat.
-From C04 Require Import Effects ObjMgr ArrayData RegFrame Ctor.
+From C04 Require Import Effects ObjMgr ArrayData RegFrame Ctor Shifter.
 Import ListNotations.
 
 Definition rIdx2 := 4.        (* the local `size_t index` of SetCountCrt / of its items creator *)
@@ -307,7 +307,7 @@ Definition documented (o : array_op) : strength :=
   | OpRemoveBack | OpSetCountSmaller => Nothrow
   | _ => Strong                               (* "All Array functions and constructors have strong exception safety" *)
   end.
-Definition modelled (o : array_op) : bool := match o with OpInsertAt | OpRemoveAt => false | _ => true end.
+Definition modelled (o : array_op) : bool := true.
 
 Definition proved (o : array_op) : Prop :=
   match o with
@@ -335,13 +335,19 @@ Definition proved (o : array_op) : Prop :=
   | OpShrinkIntCap => forall ib count junk cr s,
       intcap_creator_ok cr ib (hp s) -> alive (hp s) (regs (hp s) rItems) = true ->
       forall s', pv_reset_intcap ib count junk cr s = (Exn, s') -> unchanged (hp s) (hp s')
-  | OpInsertAt | OpRemoveAt => True           (* documented as basic only: not modelled, exercised by property C05's shifter model *)
+  | OpInsertAt => forall c arg index count s,        (* BASIC: a valid array with a consistent count, whatever its contents *)
+      arr_basic arg (hp s) -> 0 < count -> index <= regs (hp s) rCount -> regs (hp s) rCount + count <= regs (hp s) rCap ->
+      forall s', array_insert_nogrow c arg index count s = (Exn, s') ->
+        arr_basic arg (hp s') /\ regs (hp s) rCount <= regs (hp s') rCount <= regs (hp s) rCount + count
+  | OpRemoveAt => forall c arg index count s,
+      arr_basic arg (hp s) -> 0 < count -> index + count <= regs (hp s) rCount ->
+      forall s', array_remove_at c arg index count s = (Exn, s') -> arr_basic arg (hp s') /\ regs (hp s') rCount = regs (hp s) rCount
   end.
 
 Ltac by_spec X := unfold wp in X; match goal with E : _ = (Exn, _) |- _ => rewrite E in X end; exact X.
 Theorem array_strength_table_proved : forall o, proved o.
 Proof.
-  destruct o; simpl; auto.
+  destruct o; simpl.
   - intros c capacity arg v s W I Hc Ha s' E. pose proof (array_addback_spec c capacity arg v s W I Hc Ha) as X. by_spec X.
   - intros c capacity s W I Hc s' E. pose proof (array_grow_spec c capacity s W I Hc) as X. by_spec X.
   - intros c capacity s W I Hc s' E. pose proof (array_grow_spec c capacity s W I Hc) as X. by_spec X.
@@ -351,4 +357,6 @@ Proof.
   - intros k s I Hk Hc s' E. pose proof (array_remove_back_spec k s I Hk Hc) as X. by_spec X.
   - intros src n s W H s' E. pose proof (Ctor.array_copy_ctor_spec src n s W H) as X. by_spec X.
   - intros ib count junk cr s H1 H2 s' E. pose proof (pv_reset_intcap_spec ib count junk cr s H1 H2) as X. by_spec X.
+  - intros c arg index count s B H1 H2 H3 s' E. pose proof (array_insert_basic_spec c arg index count s B H1 H2 H3) as X. by_spec X.
+  - intros c arg index count s B H1 H2 s' E. pose proof (array_remove_basic_spec c arg index count s B H1 H2) as X. by_spec X.
 Qed.
